@@ -36,6 +36,8 @@ MANIFEST = {
 }
 BUDGET = {'quick': 80, 'thorough': 1500}
 MISMATCH_BUDGET = 0.0
+ESCALATE_BUDGET = 120
+SEARCH_BUDGET = 120
 RULE = ('random timing-valid sequences (1-12 blocks; RF block/sinc/gauss/arbitrary, trapezoids, extended trapezoids, arbitrary '
         'gradients connected across blocks with non-zero edges of both signs, ADC, delays, labels, triggers/outputs, numeric and '
         'string definitions); writer system and reader system drawn independently (gradient raster 4/5/10/20 us, RF raster 1/2 us, '
@@ -232,6 +234,9 @@ def oracle(ctx, case, seq, s2, sysw):
 # ---- cases -----------------------------------------------------------------------------------------
 def build(ctx, index):
     rng = ctx.rng('seq%d' % index)
+    if index < 0:     # fixed corpus (run first)
+        seq, nb, sysw = filegen.shared_gradient_corpus()
+        return rng, seq, nb, sysw, filegen.rand_system(rng, default_prob=0.3)
     seq, nb, sysw = filegen.random_sequence(rng)
     sysr = filegen.rand_system(rng, default_prob=0.3)
     return rng, seq, nb, sysw, sysr
@@ -348,7 +353,7 @@ def run(ctx):
     n_cases = {'quick': 130, 'thorough': 4000}[ctx.tier]
     kf5_stream(ctx)
     pend = []
-    for n in range(n_cases):
+    for n in range(-1, n_cases):
         if ctx.out_of_time():
             ctx.notes.append('time budget reached after %d sequences' % n)
             break
